@@ -330,4 +330,284 @@ set_option maxRecDepth 8000 in
 example : (stepOf f11Y f11F f11S3 1).log = [1] ∧ (stepOf f11Y f11F f11S3 1).recv = [⟨1, [[1000, 1001, 1002]], [[1000, 1001, 1002]]⟩] := by
   decide +kernel
 
+/-- **C18_rerun_runs.** As `C18_rerun_partial`, concluding outright that the task function is called, under the explicit
+side condition that FAIL-for-a-missing-node is impossible: the task's module and its *non-pattern* dependencies exist
+(a matched file exists by definition of matching), its pattern dependencies are still unresolved and it declares no
+`after` (the only other source of predecessors: `createDag_neighbours_conv`). -/
+theorem C18_rerun_runs (Y : YieldFn) (F : BodyFn) (ts : List PTask) (w : World) (s0 sm s' : Prov.Sess) (pre : List Nat)
+    (t : Nat) (post : List Nat) (h0 : initSess ts w = some s0) (h1 : loop Y F s0 pre = .ok sm)
+    (h2 : loop Y F sm (t :: post) = .ok s')
+    (tk : PTask) (hf : findTask sm.tasks t = some tk) (hng : tk.gen = false) (hfm : t ∉ sm.failMarks)
+    (π : Pat) (hsl : (⟨π, none⟩ : Slot) ∈ tk.pdeps) (n : Nat) (hn : n ∈ π.glob sm.w.fs)
+    (hch : hasChanged sm.w t (nv n) (lookup sm.w.fs n) = true)
+    (hre : (setupProvisional { sm with so := sm.so.take [tv t] } t).stop = false)
+    (hun : ∀ sl ∈ tk.pdeps, sl.res = none) (hafter : tk.after = [])
+    (hdeps : ∀ d ∈ tk.cnt.toList ++ tk.deps, (lookup sm.w.fs d).isSome = true)
+    (hsrc : (lookup sm.w.fs tk.src).isSome = true) :
+    (stepOf Y F sm t).log = sm.log ++ [t] := by
+  have hi : LInv ts sm ([] ++ pre) := loop_inv pre s0 sm [] (initSess_inv h0) h1
+  obtain ⟨hs, _, hl, _, _⟩ := loop_cons h2
+  have hg := hi.good hs
+  generalize hsa : ({ sm with so := sm.so.take [tv t] } : Prov.Sess) = sa at hre
+  have hga : sa.stop = false → Good sa (([] ++ pre).map tv ++ [tv t]) := fun _ => by
+    subst hsa
+    exact ⟨hg.dag, by obtain ⟨f, hf, hr⟩ := hg.reach; exact ⟨f, hf, Reach.ready 1 [tv t] hr hl⟩, hg.nodes⟩
+  have hfa : findTask sa.tasks t = some tk := by subst hsa; exact hf
+  have hfma : t ∉ sa.failMarks := by subst hsa; exact hfm
+  have hwa : sa.w = sm.w := by subst hsa; rfl
+  have hloga : sa.log = sm.log := by subst hsa; rfl
+  have hstep : stepOf Y F sm t = { protocol Y F sa t with so := (protocol Y F sa t).so.finish [tv t] } := by subst hsa; rfl
+  rw [hstep]
+  show (protocol Y F sa t).log = sm.log ++ [t]
+  rw [← hloga]
+  have hsp := setupProvisional_spec sa t tk hfa
+  have hg1 : Good (setupProvisional sa t) _ := (setupProvisional_moves sa t).good.2.2 _ hga hre
+  have hunr : unresolved tk.pdeps = true := by
+    unfold unresolved; exact List.any_eq_true.2 ⟨_, hsl, rfl⟩
+  have hdep : n ∈ (resolvedDeps sa.w.fs tk).allDeps := by
+    unfold resolvedDeps PTask.allDeps
+    simp only [hunr, if_true]
+    refine List.mem_append.2 (Or.inr (List.mem_flatMap.2 ⟨Slot.resolve sa.w.fs ⟨π, none⟩, List.mem_map.2 ⟨_, hsl, rfl⟩, ?_⟩))
+    rw [hwa]; exact hn
+  obtain ⟨m, hdag⟩ := hg1.dag
+  have hedge := (createDag_spec hdag _ (findTask_mem hsp.2)).2.1 n hdep
+  have hid1 := findTask_id hsp.2
+  rw [hid1] at hedge
+  have hpred : nv n ∈ (setupProvisional sa t).g.preds (tv t) := mem_preds.2 hedge
+  have hw1 : (setupProvisional sa t).w = sm.w := by rw [hsp.1.1, hwa]
+  have hch' : hasChanged (setupProvisional sa t).w t (nv n)
+      (stateOf (toProject (setupProvisional sa t).tasks) (setupProvisional sa t).w (nv n)) = true := by
+    rw [stateOf_nv, hw1]; exact hch
+  have hne1 := scanP_changed (toProject (setupProvisional sa t).tasks) (setupProvisional sa t).g (setupProvisional sa t).w
+    (provNodes (setupProvisional sa t).tasks) t (nv n) hpred hch' (neighbours (setupProvisional sa t).g t) false
+    (by unfold neighbours; simp [hpred])
+  -- no predecessor is missing
+  have hall := resolvedDeps_allDeps_exist sm.w.fs tk hun hdeps
+  have htasks := setupProvisional_tasks sa t tk hfa hunr
+  have hne2 := scanP_not_missing (toProject (setupProvisional sa t).tasks) (setupProvisional sa t).g (setupProvisional sa t).w
+    (provNodes (setupProvisional sa t).tasks) t (neighbours (setupProvisional sa t).g t) false (by
+      intro v _ hv
+      simp only [Bool.or_eq_true, List.contains_iff_mem, beq_iff_eq] at hv
+      rcases hv with hv | rfl
+      · rcases (createDag_neighbours_conv hdag t).1 v hv with ⟨u, hu, huid, d, hd, rfl⟩ | ⟨u, hu, huid, ha⟩
+        · have hu1 : u = resolvedDeps sa.w.fs tk := by
+            rw [htasks] at hu
+            rcases mem_setTask hu with h | h
+            · exact h
+            · exact absurd (huid.trans hid1.symm) h.2
+          rw [stateOf_nv, hw1]
+          rw [hu1, hwa] at hd
+          exact hall d hd
+        · have hu1 : u = resolvedDeps sa.w.fs tk := by
+            rw [htasks] at hu
+            rcases mem_setTask hu with h | h
+            · exact h
+            · exact absurd (huid.trans hid1.symm) h.2
+          exfalso
+          apply ha
+          rw [hu1]; unfold resolvedDeps; split <;> exact hafter
+      · rw [stateOf_tv _ hsp.2, hw1]
+        have : (resolvedDeps sa.w.fs tk).src = tk.src := by unfold resolvedDeps; split <;> rfl
+        rw [this]; exact hsrc)
+  have hscan := scan_cases _ hne1 hne2
+  have hrp := runPhases_changed Y F sa t tk hfa hng hfma hscan
+  unfold protocol
+  rw [(reportChain_frame _ t _).2.2.2.2.1]
+  exact hrp
+
+/-- **C18_consumer_sees_producer_output** (build level; combines `C18_resolve` and `C18_producer_first`). In every build
+the model accepts — collected tasks `ts`, any accepted pick list — every invocation `e` of a task function happened at
+one definite pick: after a prefix `pre` of the picks the loop was in state `sm` and handed out `e.task`, and
+* each pattern argument it received is the list of files matching the pattern in the world of `sm` (the task's setup
+  instant) — for an argument still unresolved then, which is every argument of a collected task (its record `C` is
+  untouched until its own pick) — and the body's own glob saw exactly the same lists;
+* every collected task `P` declaring one of these patterns as a product had completed its whole protocol before
+  (`P.id ∈ pre`), and the received list contains **every** file of the pattern's range that exists at that instant — in
+  particular every file `P` wrote in this build that still exists. -/
+theorem C18_consumer_sees_producer_output (Y : YieldFn) (F : BodyFn) (ts : List PTask) (w : World) (s0 s' : Prov.Sess)
+    (picks : List Nat) (h0 : initSess ts w = some s0) (h1 : loop Y F s0 picks = .ok s') (e : Recv) (he : e ∈ s'.recv) :
+    ∃ pre post sm tk, picks = pre ++ e.task :: post ∧ loop Y F s0 pre = .ok sm ∧ findTask sm.tasks e.task = some tk ∧
+      e.got = tk.pdeps.map (fun sl => sl.res.getD (sl.pat.glob sm.w.fs)) ∧
+      e.seen = tk.pdeps.map (fun sl => sl.pat.glob sm.w.fs) ∧
+      (∀ C, findTask ts e.task = some C → tk = C ∧
+        ∀ (P : PTask) (π : Pat), findTask ts P.id = some P → P.id ≠ e.task →
+          (⟨π, none⟩ : Slot) ∈ P.pprods → (⟨π, none⟩ : Slot) ∈ C.pdeps →
+          P.id ∈ pre ∧ π.glob sm.w.fs ∈ e.got ∧
+          ∀ n, π.lo ≤ n → n < π.lo + π.len → (lookup sm.w.fs n).isSome = true → n ∈ π.glob sm.w.fs) := by
+  have hempty := initSess_empty h0
+  rcases loop_recv picks s0 s' h1 e he with h | ⟨pre, t, post, sm, tk, hp, hl, hf, heq⟩
+  · rw [hempty.1] at h; cases h
+  · have het : e.task = t := by rw [heq]
+    have hgot : e.got = tk.pdeps.map (fun sl => sl.res.getD (sl.pat.glob sm.w.fs)) := by
+      rw [heq]; exact received_resolvedDeps _ _
+    have hseen : e.seen = tk.pdeps.map (fun sl => sl.pat.glob sm.w.fs) := by
+      rw [heq]; exact seenBy_resolvedDeps _ _ _
+    rw [het]
+    refine ⟨pre, post, sm, tk, hp, hl, hf, hgot, hseen, fun C hC => ?_⟩
+    have hnd : picks.Nodup := by simpa using loop_nodup picks s0 s' [] (initSess_inv h0) List.nodup_nil h1
+    have htn : t ∉ pre := by
+      rw [hp] at hnd
+      have := (List.nodup_append.1 hnd).2.2
+      intro hin
+      exact this t hin t (by simp) rfl
+    have hi : LInv ts sm ([] ++ pre) := loop_inv pre s0 sm [] (initSess_inv h0) hl
+    simp only [List.nil_append] at hi
+    have htk : tk = C := by
+      have := hi.untouched t C htn hC
+      rw [hf] at this; exact Option.some.inj this
+    refine ⟨htk, fun P π hP hne hπP hπC => ?_⟩
+    have hrest : loop Y F sm (t :: post) = .ok s' := by
+      rw [hp] at h1
+      obtain ⟨sm', ha, hb⟩ := loop_append pre (t :: post) s0 s' h1
+      rw [hl] at ha
+      rw [Except.ok.inj ha]; exact hb
+    refine ⟨C18_producer_first Y F ts w s0 sm s' pre t post h0 hl hrest P C hP hC hne π hπP hπC, ?_, ?_⟩
+    · rw [hgot, htk]
+      exact List.mem_map.2 ⟨⟨π, none⟩, hπC, rfl⟩
+    · intro n a b c
+      exact mem_glob.2 ⟨a, b, c⟩
+
+/-- **C18_generator_always_runs.** By design a task generator is executed in every build (its states are never
+recorded): whenever a build hands out a generator that is not skipped because an ancestor failed, its function is called.
+What it then defines is `Y g (lists received)`: the same tasks as in the previous build iff it receives the same lists
+(`Y` is a function; `C18_generated` shows they join `session.tasks` and are scheduled in the same build). -/
+theorem C18_generator_always_runs (Y : YieldFn) (F : BodyFn) (ts : List PTask) (w : World) (s0 sm s' : Prov.Sess)
+    (pre : List Nat) (g : Nat) (post : List Nat) (_h0 : initSess ts w = some s0) (_h1 : loop Y F s0 pre = .ok sm)
+    (_h2 : loop Y F sm (g :: post) = .ok s') (G : PTask) (hG : findTask sm.tasks g = some G) (hgen : G.gen = true)
+    (hfm : g ∉ sm.failMarks) : (stepOf Y F sm g).log = sm.log ++ [g] :=
+  protocol_gen_log Y F { sm with so := sm.so.take [tv g] } g G hG hgen hfm
+
+/-- **C18_generated_incremental** (two builds; the C03 shape for tasks without pattern arguments — in particular the
+copy tasks a generator defines per matched file, and their plain dependants).
+
+Build A (tasks `tsA`, any world) hands out `k` with record `K` (no pattern arguments, no `after`); its function is
+called, it does not fail, nothing crashes. Build B (tasks `tsB`, **any** file system `fsB`, the database build A left)
+reaches `k` again with the same record `K` (collected again, or defined again by its generator — generators always run,
+`C18_generator_always_runs`), `k`'s id is unique and `k` is not skip-marked. Then
+* **unchanged ⇒ not executed**: if every dependency, the module and every product of `K` has, at that moment, the
+  content it had right after `k`'s protocol in build A, then the function of `k` is not called and `k` is reported
+  `SKIP_UNCHANGED`;
+* **changed ⇒ executed**: if some dependency `d` (e.g. the matched source file of a copy task) has another content, and
+  the dependencies and the module exist, the function of `k` is called. -/
+theorem C18_generated_incremental (Y : YieldFn) (F : BodyFn)
+    (tsA : List PTask) (wA : World) (s0A smA sA : Prov.Sess) (preA : List Nat) (k : Nat) (postA : List Nat)
+    (h0A : initSess tsA wA = some s0A) (h1A : loop Y F s0A preA = .ok smA) (h2A : loop Y F smA (k :: postA) = .ok sA)
+    (K : PTask) (hKA : findTask smA.tasks k = some K) (hng : K.gen = false) (hpd : K.pdeps = []) (hpp : K.pprods = [])
+    (hafter : K.after = [])
+    (hranA : (stepOf Y F smA k).log = smA.log ++ [k]) (hnfA : (k, Outcome.fail) ∉ (stepOf Y F smA k).reports)
+    (hcrA : (stepOf Y F smA k).crashed = false)
+    (tsB : List PTask) (fsB : FS) (s0B smB sB : Prov.Sess) (preB postB : List Nat)
+    (h0B : initSess tsB ⟨fsB, sA.w.db⟩ = some s0B) (h1B : loop Y F s0B preB = .ok smB) (h2B : loop Y F smB (k :: postB) = .ok sB)
+    (hKB : findTask smB.tasks k = some K) (huniq : ∀ u ∈ smB.tasks, u.id = k → u = K) (hfmB : k ∉ smB.failMarks) :
+    ((∀ x ∈ K.allDeps ++ [K.src] ++ K.allProds, lookup smB.w.fs x = lookup (stepOf Y F smA k).w.fs x) →
+      (stepOf Y F smB k).log = smB.log ∧ (stepOf Y F smB k).reports = smB.reports ++ [(k, Outcome.skipUnchanged)]) ∧
+    (∀ d ∈ K.allDeps, lookup smB.w.fs d ≠ lookup (stepOf Y F smA k).w.fs d →
+      (∀ x ∈ K.allDeps, (lookup smB.w.fs x).isSome = true) → (lookup smB.w.fs K.src).isSome = true →
+      (stepOf Y F smB k).log = smB.log ++ [k]) := by
+  have hid : K.id = k := findTask_id hKA
+  -- build A: what the successful protocol of k recorded
+  have hiA : LInv tsA smA ([] ++ preA) := loop_inv preA s0A smA [] (initSess_inv h0A) h1A
+  simp only [List.nil_append] at hiA
+  obtain ⟨hsA, _, hlA, _, h5A⟩ := loop_cons h2A
+  have hkA : k ∉ preA := pick_fresh hiA hsA hlA
+  have htwA : k ∉ smA.twp := fun h => hkA (by
+    simpa using loop_twp preA s0A smA [] (by rw [initSess_twp h0A]; intro u hu; cases hu) h1A k h)
+  obtain ⟨mA, hdagA⟩ := (hiA.good hsA).dag
+  have hrecA : Recorded (stepOf Y F smA k).w K :=
+    plain_records Y F { smA with so := smA.so.take [tv k] } k K mA hdagA hKA hng hpd hpp htwA hranA hnfA hcrA
+  -- the rows of k survive the rest of build A and the prefix of build B
+  have hndA : (preA ++ k :: postA).Nodup := by
+    have hall := loop_append_ok preA (k :: postA) s0A smA sA h1A h2A
+    simpa using loop_nodup _ s0A sA [] (initSess_inv h0A) List.nodup_nil hall
+  have hkpostA : k ∉ postA := by
+    have := (List.nodup_append.1 hndA).2.1
+    exact (List.nodup_cons.1 this).1
+  have hiB : LInv tsB smB ([] ++ preB) := loop_inv preB s0B smB [] (initSess_inv h0B) h1B
+  simp only [List.nil_append] at hiB
+  obtain ⟨hsB, _, hlB, _, _⟩ := loop_cons h2B
+  have hkB : k ∉ preB := pick_fresh hiB hsB hlB
+  have htwB : k ∉ smB.twp := fun h => hkB (by
+    simpa using loop_twp preB s0B smB [] (by rw [initSess_twp h0B]; intro u hu; cases hu) h1B k h)
+  have hdb : ∀ v, lookup smB.w.db (tv k, v) = lookup (stepOf Y F smA k).w.db (tv k, v) := by
+    intro v
+    rw [loop_db_other k v preB s0B smB h1B hkB, (initSess_empty h0B).2.2.2.1]
+    exact loop_db_other k v postA _ sA h5A hkpostA
+  obtain ⟨mB, hdagB⟩ := (hiB.good hsB).dag
+  let sb : Prov.Sess := { smB with so := smB.so.take [tv k] }
+  have hstepB : stepOf Y F smB k = { protocol Y F sb k with so := (protocol Y F sb k).so.finish [tv k] } := rfl
+  refine ⟨fun hsame => ?_, fun d hd hne hex hsrc => ?_⟩
+  · have hrecB : Recorded smB.w K := by
+      refine ⟨fun x hx => ?_, ?_, fun p hp => ?_⟩
+      · obtain ⟨h, e1, e2⟩ := hrecA.1 x hx
+        exact ⟨h, by rw [hsame x (by simp [hx])]; exact e1, by rw [hid, hdb]; rw [hid] at e2; exact e2⟩
+      · obtain ⟨h, e1, e2⟩ := hrecA.2.1
+        exact ⟨h, by rw [hsame K.src (by simp)]; exact e1, by rw [hid, hdb]; rw [hid] at e2; exact e2⟩
+      · obtain ⟨h, e1, e2⟩ := hrecA.2.2 p hp
+        exact ⟨h, by rw [hsame p (by simp [hp])]; exact e1, by rw [hid, hdb]; rw [hid] at e2; exact e2⟩
+    have := plain_skip Y F sb k K mB hdagB hKB hng hpd hpp htwB hfmB huniq hafter hrecB
+    rw [hstepB, this]
+    exact ⟨rfl, rfl⟩
+  · obtain ⟨h, e1, e2⟩ := hrecA.1 d hd
+    have hch : hasChanged smB.w k (nv d) (lookup smB.w.fs d) = true := by
+      unfold hasChanged
+      cases hcur : lookup smB.w.fs d with
+      | none => rfl
+      | some c =>
+        have hrow : lookup smB.w.db (tv k, nv d) = some h := by rw [hdb]; rw [hid] at e2; exact e2
+        simp only [hrow]
+        have : c ≠ h := by
+          intro e; apply hne; rw [hcur, e1, e]
+        simpa using fun e => this e.symm
+    have := plain_runs Y F sb k K mB hdagB hKB hng hpd hpp htwB hfmB huniq hafter d hd hch hex hsrc
+    rw [hstepB]
+    exact this
+
+/-! ## Non-vacuity of the build-level / two-build theorems -/
+
+set_option maxRecDepth 8000 in
+/-- `C18_rerun_runs` on the F11 project after a file was dropped in: all side conditions hold. -/
+example : (stepOf f11Y f11F f11S3 1).log = f11S3.log ++ [1] :=
+  C18_rerun_runs f11Y f11F [f11Task] f11W3 f11S3 f11S3 f11S3' [] 1 [] (by rfl) (by rfl) (by rfl) f11Task (by decide +kernel) rfl
+    (by decide +kernel) ⟨500000, 1000, 5⟩ (by decide) 1002 (by decide +kernel) (by decide +kernel) (by decide +kernel)
+    (by decide) rfl (by decide +kernel) (by decide +kernel)
+
+def exFull : Prov.Sess := match loop exY f11F exS0 [1, 2, 3, 21000, 21001] with | .ok s => s | .error _ => exDummy
+
+set_option maxRecDepth 8000 in
+/-- `C18_consumer_sees_producer_output` for the consumer's invocation in the complete first build -/
+example := C18_consumer_sees_producer_output exY f11F exTs exW exS0 exFull [1, 2, 3, 21000, 21001] (by rfl) (by rfl)
+  ⟨3, [[1000, 1001]], [[1000, 1001]]⟩ (by decide +kernel)
+
+/-! Second build of the same project on the world the first one left (no edits): the copy task 21000 is defined again by
+the generator and skipped; with its source file 1000 rewritten it is executed. -/
+def exK : PTask := { id := 21000, src := 9000, deps := [1000], prods := [21000] }
+def exSmA : Prov.Sess := match loop exY f11F exS0 [1, 2, 3] with | .ok s => s | .error _ => exDummy
+def exB0 : Prov.Sess := (initSess exTs ⟨exFull.w.fs, exFull.w.db⟩).getD exDummy
+def exSmB : Prov.Sess := match loop exY f11F exB0 [1, 2, 3] with | .ok s => s | .error _ => exDummy
+def exSB : Prov.Sess := match loop exY f11F exSmB [21000, 21001] with | .ok s => s | .error _ => exDummy
+
+set_option maxRecDepth 8000 in
+example : (stepOf exY f11F exSmB 21000).log = exSmB.log ∧
+    (stepOf exY f11F exSmB 21000).reports = exSmB.reports ++ [(21000, Outcome.skipUnchanged)] :=
+  (C18_generated_incremental exY f11F exTs exW exS0 exSmA exFull [1, 2, 3] 21000 [21001] (by rfl) (by rfl) (by rfl)
+    exK (by decide +kernel) rfl rfl rfl rfl (by decide +kernel) (by decide +kernel) (by decide +kernel)
+    exTs exFull.w.fs exB0 exSmB exSB [1, 2, 3] [21001] (by rfl) (by rfl) (by rfl)
+    (by decide +kernel) (by decide +kernel) (by decide +kernel)).1 (by decide +kernel)
+
+set_option maxRecDepth 8000 in
+/-- in that second build the generator ran again (it is the only body that did) -/
+example : exSmB.log = [2] := by decide +kernel
+
+def exB0' : Prov.Sess := (initSess exTs ⟨Engine.insert exFull.w.fs 1000 77, exFull.w.db⟩).getD exDummy
+def exSmB' : Prov.Sess := match loop exY f11F exB0' [1, 2, 3] with | .ok s => s | .error _ => exDummy
+def exSB' : Prov.Sess := match loop exY f11F exSmB' [21000, 21001] with | .ok s => s | .error _ => exDummy
+
+set_option maxRecDepth 8000 in
+example : (stepOf exY f11F exSmB' 21000).log = exSmB'.log ++ [21000] :=
+  (C18_generated_incremental exY f11F exTs exW exS0 exSmA exFull [1, 2, 3] 21000 [21001] (by rfl) (by rfl) (by rfl)
+    exK (by decide +kernel) rfl rfl rfl rfl (by decide +kernel) (by decide +kernel) (by decide +kernel)
+    exTs (Engine.insert exFull.w.fs 1000 77) exB0' exSmB' exSB' [1, 2, 3] [21001] (by rfl) (by rfl) (by rfl)
+    (by decide +kernel) (by decide +kernel) (by decide +kernel)).2 1000 (by decide) (by decide +kernel) (by decide +kernel)
+    (by decide +kernel)
+
 end Pytask
